@@ -64,6 +64,7 @@ struct XOut {
     double mem_for_lu = 0, mem_total_needed = 0; long mem_expansions = 0;
     bool work_guard_ok = true;   // canaries around the caller workspace intact
     bool lu_inside_work = true;  // every L/U array lies inside the caller buffer (lwork > 0)
+    std::string lu_outside_which;
 };
 
 struct Drv {
